@@ -35,6 +35,9 @@ type CaseR struct {
 	Early bool `json:"early,omitempty"`
 	// Rot rotates the list of calls made after each definition, so that any of them can be the first one.
 	Rot int `json:"rot,omitempty"`
+	// Docs: bit k set = definition k carries a documentation string (a redefinition must take over the whole new
+	// definition also when only one of the two has documentation)
+	Docs int `json:"docs,omitempty"`
 }
 
 var callForms = []string{"direct", "funcall-name", "funcall-function", "apply-name", "compiled-caller"}
@@ -133,7 +136,12 @@ func runR(c CaseR) *h.Result {
 	for k, sh := range c.Shapes {
 		ps := sh.Params()
 		mark := "entered-" + strconv.Itoa(k)
-		if r := setup("(defun " + name + " " + sh.LambdaList() + " (vt:mark '" + mark + ") (list " + strings.Join(ps, " ") + "))"); r != nil {
+		doc := ""
+		if c.Docs&(1<<k) != 0 {
+			doc = " \"definition " + strconv.Itoa(k) + "\""
+			res.Classes = append(res.Classes, "R:docstring")
+		}
+		if r := setup("(defun " + name + " " + sh.LambdaList() + doc + " (vt:mark '" + mark + ") (list " + strings.Join(ps, " ") + "))"); r != nil {
 			return r
 		}
 		if k == 0 && !c.Forward {
@@ -223,6 +231,7 @@ func genR(rt *rapid.T) (c CaseR) {
 		c.Early = rapid.Bool().Draw(rt, "early")
 	}
 	c.Rot = rapid.IntRange(0, len(c.Vecs)*len(callForms)-1).Draw(rt, "rot")
+	c.Docs = rapid.IntRange(0, 1<<n-1).Draw(rt, "docs")
 	return
 }
 
@@ -267,7 +276,7 @@ func gridR(three bool, yield func(CaseR) bool) {
 					if idx%h.C.NShards != h.C.Shard {
 						continue
 					}
-					c := CaseR{Shapes: []Case{a, b}, Vecs: vecs, Forward: mode > 0, Early: mode == 2, Rot: rot}
+					c := CaseR{Shapes: []Case{a, b}, Vecs: vecs, Forward: mode > 0, Early: mode == 2, Rot: rot, Docs: idx % 4}
 					if three {
 						c.Shapes = append(c.Shapes, a)
 					}
